@@ -137,11 +137,14 @@ def schema_sources():
     return out
 
 
+REPO_SRC = os.path.join(os.environ.get("VF_REPO") or "/repo", "src")
+
+
 def fresh_text(name, opts):
     """serialisation by the first call of a fresh process"""
-    code = ("import sys, json; sys.path.insert(0, %r); sys.path.insert(0, '/repo/src'); from vf.props import c12;"
+    code = ("import sys, json; sys.path.insert(0, %r); sys.path.insert(0, %r); from vf.props import c12;"
             "s = dict(c12.schema_sources())[%r](); sys.stdout.write(json.dumps(s.to_string(**%r)))") % (
-        os.path.dirname(os.path.dirname(os.path.dirname(os.path.abspath(__file__)))), name, opts)
+        os.path.dirname(os.path.dirname(os.path.dirname(os.path.abspath(__file__)))), REPO_SRC, name, opts)
     out = subprocess.run([sys.executable, "-c", code], capture_output=True, text=True, env=dict(os.environ, PYTHONHASHSEED="0"))
     if out.returncode != 0:
         raise MachineryDefect("fresh-process serialisation failed: %s" % out.stderr[-400:])
